@@ -144,6 +144,18 @@ def _helper_pause(rep, h, tag, fld, PAUSE, PAUSED, unreg, reg, bp=False, wq=Fals
     lv = pat.dom_leaf_atoms(h, clr[0])
     ok = any(a[0] == "eq" and a[2] == ("c", 0) and a[1][0] == "bin" and a[1][1] == "and" and a[1][3] == ("c", PAUSE) for a in lv)
     rep.check(ok, "C16.pause", tag + ".wait-PAUSE-cleared", "PAUSED is cleared only after PAUSE was observed cleared", "helper clears PAUSED without waiting for the requester to clear PAUSE", [clr[0].where()])
+    # parked with nothing in private hands: work taken off the shared queue (the splice's exchanges) is run to completion before
+    # the helper can acknowledge PAUSED again - the fork child rebuilds its helpers from the *shared* queues only, a batch sitting
+    # on the stack of a thread that does not exist in the child is lost (and rcu_barrier() in the child returns without it)
+    qf = ("call_rcu_data.cbs_head", "call_rcu_data.cbs_tail", "urcu_workqueue.cbs_head", "urcu_workqueue.cbs_tail")
+    taken = [e.inst for e in pat.accesses(h, None, ("xchg",)) if any(x in qf for x in pat.full_ap_fields(e.ap))]
+    if taken:
+        loops = [c for c in h.sccs() if orr[0].blk.id in c]
+        if loops:
+            hdrs = set(pat.scc_entries(h, max(loops, key=len)))
+            hit2, par2 = h.reach(taken, orr, avoid=lambda i: i.blk.id in hdrs and i.pos == 0)
+            rep.check(hit2 is None, "C16.pause", tag + ".parks-empty-handed", "between taking work off the shared queue and the next PAUSED acknowledgement the helper goes round its main loop (the batch is run first)",
+                      "the helper can acknowledge PAUSED while holding a privately spliced batch: those callbacks are lost in a fork child", [taken[0].where(), orr[0].where()])
     g = any(a[0] == "ne" and a[2] == ("c", 0) and a[1][0] == "bin" and a[1][1] == "and" and a[1][3] == ("c", PAUSE) for a in pat.dom_leaf_atoms(h, orr[0]))
     rep.check(g, "C16.pause", tag + ".PAUSED-iff-PAUSE", "PAUSED is set only in response to PAUSE", "PAUSED set without a PAUSE request", [orr[0].where()])
 
@@ -371,12 +383,50 @@ def rule_child_handover(ctx, rep):
     pat.require(keep, "hand-over instances vanished")
 
 
+def rule_hookreg(ctx, rep):
+    """Registration of the hash table's fork hooks is serialised with the fork bracket by call_rcu_mutex: before_fork keeps
+    the mutex from its read of registered_rculfhash_atfork until after_fork_parent has read it again, so both sides of a fork see
+    the same registration and the hooks run as a matched pair (nesting counter, fork mutex, worker pause/resume).  Every write of
+    the registration pointer / refcount, and the reads in before_fork and after_fork_parent, hold call_rcu_mutex."""
+    for fl in ALL:
+        F = FL[fl]
+        m = ctx.mod(F.lib, "flat")
+        n = 0
+        for f in m.defined():
+            acc = []
+            for i in f.all_insts():
+                if i.op not in ("load", "store", "rmw", "cmpxchg", "asm"):
+                    continue
+                e = mm.effect_of(i)
+                if e is None or e.ap is None or ir.ap_fields(e.ap):
+                    continue
+                if pat.base_global(e.ap) in ("registered_rculfhash_atfork", "registered_rculfhash_atfork_refcount"):
+                    acc.append(i)
+            if not acc:
+                continue
+            rep.touch(f)
+            entry = frozenset(["@call_rcu_mutex"]) if f.name.endswith("_call_rcu_after_fork_parent") else frozenset()
+            must = lockset.compute(f, entry=entry)
+            for i in acc:
+                if f.name.endswith("_call_rcu_after_fork_child") and i.op == "load":
+                    continue        # the child is single-threaded; it reads after having released the inherited mutex
+                if i.op == "load" and not (f.name.endswith("_call_rcu_before_fork") or f.name.endswith("_call_rcu_after_fork_parent")):
+                    continue        # lock-free "already registered?" fast path: only the fork bracket's reads and all writes need the mutex
+                n += 1
+                kind = "written" if i.op != "load" else "read"
+                rep.check("@call_rcu_mutex" in must.get(i.id, ()), "C16.hookreg", "%s.%s@%d" % (fl, f.name, i.line), "registration state %s under call_rcu_mutex" % kind,
+                          "%s %s without call_rcu_mutex: a registration landing between before_fork and after_fork makes the two sides of a fork disagree "
+                          "(after-hook without before-hook: nesting counter goes negative, the child never re-creates the resize worker)" % (pat.base_global(mm.effect_of(i).ap), kind), [i.where()])
+        pat.require(n >= 3, "%s: only %d accesses to the hook registration found" % (fl, n))
+
+
 RULES = [
     ("C16.handoff", rule_handoff),
     ("C16.handoff", rule_bp_handoff),
     ("C16.pause", rule_pause),
     ("C16.child", rule_child),
     ("C16.hooks", rule_hooks),
+    ("C16.hookreg", rule_hookreg),
     ("C16.handover", rule_child_handover),
     ("C16.bpmask", rule_bp_mask),
 ]
